@@ -35,7 +35,7 @@ ASSUMPTIONS = [
 
 # probe kinds: (name, builder(context deps) -> list of nodes, setters)
 STR_VALS_Q = ['a"b', "a\\b", "trail\\", " lead ", "#x", ""]
-STR_VALS_T = STR_VALS_Q + ["a\nb", "'q'", "é", "$(X)", "a\\\"b"]
+STR_VALS_T = STR_VALS_Q + ["a\nb", "a\rb", "a\x0cb\u2028c", "'q'", "é", "$(X)", "a\\\"b"]
 
 
 def probe(kind: str, tier: str):
